@@ -439,13 +439,18 @@ const LOCK_FNS: &[(&str, &str)] = &[
     ("try_write", ".rwWrite"),
 ];
 
-/// `<e>.0.lock()` (possibly followed by `.unwrap()` / `.expect(..)` / `?`) → mode
-fn lock_mode(e: &syn::Expr) -> Option<&'static str> {
+/// guard-returning helper methods of the file (`fn raw(&self) -> MutexGuard<..> { self.0.lock().unwrap() }`):
+/// a call `<e>.helper()` is an acquisition in the helper's mode
+type Helpers = Vec<(String, &'static str)>;
+
+/// `<e>.0.lock()` (possibly followed by `.unwrap()` / `.expect(..)` / `?`), or a
+/// call of a guard-returning helper → mode
+fn lock_mode(e: &syn::Expr, helpers: &Helpers) -> Option<&'static str> {
     match e {
         syn::Expr::MethodCall(m) => {
             let name = m.method.to_string();
             if (name == "unwrap" || name == "expect" || name == "unwrap_or_else") && !matches!(&*m.receiver, syn::Expr::Path(_)) {
-                return lock_mode(&m.receiver);
+                return lock_mode(&m.receiver, helpers);
             }
             if m.args.is_empty() {
                 if let Some((_, mode)) = LOCK_FNS.iter().find(|(n, _)| *n == name) {
@@ -455,12 +460,43 @@ fn lock_mode(e: &syn::Expr) -> Option<&'static str> {
                         }
                     }
                 }
+                if let Some((_, mode)) = helpers.iter().find(|(n, _)| *n == name) {
+                    return Some(mode);
+                }
             }
             None
         }
-        syn::Expr::Try(t) => lock_mode(&t.expr),
-        syn::Expr::Paren(p) => lock_mode(&p.expr),
+        syn::Expr::Try(t) => lock_mode(&t.expr, helpers),
+        syn::Expr::Paren(p) => lock_mode(&p.expr, helpers),
         _ => None,
+    }
+}
+
+/// is this method call the acquisition itself (not an `.unwrap()` around it)?
+fn is_acquisition(m: &syn::ExprMethodCall, helpers: &Helpers) -> bool {
+    let name = m.method.to_string();
+    LOCK_FNS.iter().any(|(n, _)| *n == name) || helpers.iter().any(|(n, _)| *n == name)
+}
+
+/// functions whose body is nothing but an acquisition (tail expression)
+struct HelperScan {
+    found: Helpers,
+}
+
+impl<'ast> Visit<'ast> for HelperScan {
+    fn visit_item_mod(&mut self, m: &'ast syn::ItemMod) {
+        if !is_cfg_test(&m.attrs) {
+            syn::visit::visit_item_mod(self, m);
+        }
+    }
+    fn visit_impl_item_fn(&mut self, f: &'ast syn::ImplItemFn) {
+        if let Some(syn::Stmt::Expr(e, None)) = f.block.stmts.last() {
+            if f.block.stmts.len() == 1 {
+                if let Some(mode) = lock_mode(e, &vec![]) {
+                    self.found.push((f.sig.ident.to_string(), mode));
+                }
+            }
+        }
     }
 }
 
@@ -478,6 +514,7 @@ struct SiteScan<'a> {
     /// guard identifier → index into `sites` (latest binding wins)
     guards: BTreeMap<String, usize>,
     raw_names: &'a [String],
+    helpers: &'a Helpers,
     errors: Vec<String>,
 }
 
@@ -503,7 +540,7 @@ impl<'ast> Visit<'ast> for SiteScan<'_> {
     fn visit_item(&mut self, _: &'ast syn::Item) {}
     fn visit_local(&mut self, l: &'ast syn::Local) {
         if let Some(init) = &l.init {
-            if let Some(mode) = lock_mode(&init.expr) {
+            if let Some(mode) = lock_mode(&init.expr, self.helpers) {
                 // the receiver expression of the lock call is evaluated first
                 syn::visit::visit_expr(self, &init.expr);
                 // visiting registered a direct (unnamed) site for this chain: rename it
@@ -537,15 +574,15 @@ impl<'ast> Visit<'ast> for SiteScan<'_> {
     fn visit_expr_method_call(&mut self, m: &'ast syn::ExprMethodCall) {
         let name = m.method.to_string();
         // the lock acquisition itself
-        if let Some(mode) = lock_mode(&syn::Expr::MethodCall(m.clone())) {
-            if LOCK_FNS.iter().any(|(n, _)| *n == name) {
+        if let Some(mode) = lock_mode(&syn::Expr::MethodCall(m.clone()), self.helpers) {
+            if is_acquisition(m, self.helpers) {
                 syn::visit::visit_expr(self, &m.receiver);
                 self.sites.push(Site { func: self.func.clone(), guard: "<temporary>".into(), mode, calls: vec![], mut_borrow: false });
                 return;
             }
         }
         // a method invoked on a guard: either a named guard or directly on the chain
-        let direct = lock_mode(&m.receiver).is_some();
+        let direct = lock_mode(&m.receiver, self.helpers).is_some();
         if direct {
             syn::visit::visit_expr(self, &m.receiver);
             let idx = self.sites.len() - 1;
@@ -596,13 +633,14 @@ struct FnWalk<'a> {
     path: Vec<String>,
     sites: Vec<Site>,
     raw_names: &'a [String],
+    helpers: &'a Helpers,
     errors: Vec<String>,
     skip_impl_of: &'a str,
 }
 
 impl FnWalk<'_> {
     fn scan(&mut self, name: String, block: &syn::Block) {
-        let mut s = SiteScan { func: name, sites: vec![], guards: BTreeMap::new(), raw_names: self.raw_names, errors: vec![] };
+        let mut s = SiteScan { func: name, sites: vec![], guards: BTreeMap::new(), raw_names: self.raw_names, helpers: self.helpers, errors: vec![] };
         s.visit_block(block);
         self.sites.append(&mut s.sites);
         self.errors.append(&mut s.errors);
@@ -842,7 +880,15 @@ pub fn c12sharing(repo: &Path) -> Result<String, String> {
         return Err("no inherent methods of RawList found in src/value/list.rs".into());
     }
     let raw_names: Vec<String> = methods.iter().map(|m| m.name.clone()).collect();
-    let mut walk = FnWalk { path: vec![], sites: vec![], raw_names: &raw_names, errors: vec![], skip_impl_of: "RawList" };
+    let mut hs = HelperScan { found: vec![] };
+    hs.visit_file(&list);
+    for (n, _) in &hs.found {
+        if raw_names.contains(n) {
+            return Err(format!("guard-returning helper `{n}` has the name of a RawList method"));
+        }
+    }
+    let helpers: Helpers = hs.found;
+    let mut walk = FnWalk { path: vec![], sites: vec![], raw_names: &raw_names, helpers: &helpers, errors: vec![], skip_impl_of: "RawList" };
     walk.visit_file(&list);
     if !walk.errors.is_empty() {
         return Err(walk.errors.join("; "));
